@@ -52,7 +52,9 @@ var (
 	protoOffers = [][]string{nil, {"chat"}, {"chat, superchat"}, {"mqtt", "json, chat.v2"}, {"chat.v2 ,json"}, {"x-1,x-2,x-3,json"},
 		// names differing only in letter case / prefixes of an accepted name: selection is exact and in client order
 		{"JSON, json"}, {"Chat.v2", "chat.V2, chat.v2, json"}, {"chat.v, chat.v22, jso, proto-1x, proto-19"}}
-	extOffers = [][]string{nil, {"permessage-deflate"}, {"permessage-deflate; client_max_window_bits"}, {"foo; a=1, bar"}, {"permessage-deflate; server_no_context_takeover", "x-webkit-deflate-frame"}, {"bar; q=\"quoted v\"; z"}}
+	extOffers = [][]string{nil, {"permessage-deflate"}, {"permessage-deflate; client_max_window_bits"}, {"foo; a=1, bar"}, {"permessage-deflate; server_no_context_takeover", "x-webkit-deflate-frame"}, {"bar; q=\"quoted v\"; z"},
+		// several offers per line over three lines (a selector that takes them all returns six options, in order)
+		{"foo; a=1, barbar; bb=22", "bazbazbaz; c=3", "q, permessage-deflate; client_max_window_bits, zz; y"}}
 )
 
 var bigSlice = func() []string {
